@@ -122,6 +122,10 @@ pub struct GateCase {
     pub txs: Vec<WorkTx>,
     /// -1: one ms before the work suffices, 0: first ms at which it suffices, +k: later
     pub dt_offset: i32,
+    /// > 0: the candidate is also delivered to a node that joined in the middle of the chain (it was
+    /// given the longest chain only from this block index on, so it never saw block 1)
+    #[serde(default)]
+    pub late_from: u8,
 }
 
 /// Oracle: routing work a transaction delivers to `creator` (statement: fee-weighted, halved per
@@ -155,6 +159,18 @@ pub fn run_gate_case(case: &GateCase) -> (Vec<(String, String)>, bool, &'static 
     for b in &main {
         if !guarded_add(&mut node, b.clone(), 1000).0.accepted() {
             return (v, false, "prefix");
+        }
+    }
+    let mut late: Option<Node> = None;
+    if case.late_from > 0 && main.len() >= 2 {
+        let from = 1 + (case.late_from as usize - 1) % (main.len() - 1);
+        let mut l = Node::new(case.prefix.ncfg, 7);
+        let mut ok = true;
+        for b in &main[from..] {
+            ok &= guarded_add(&mut l, b.clone(), 1000).0.accepted();
+        }
+        if ok && l.tip() == node.tip() {
+            late = Some(l);
         }
     }
     let (tip_id, tip_hash) = node.tip();
@@ -261,6 +277,20 @@ pub fn run_gate_case(case: &GateCase) -> (Vec<(String, String)>, bool, &'static 
             format!("block reports total_work {} but the statement's rule gives {} (fees halved per extra hop, zero unless ending at the creator)", blk.total_work, work),
         ));
     }
+    if let Some(l) = late.as_mut() {
+        // the node that joined mid-chain has to reach the same verdict on the routing work
+        let (out, _) = guarded_add(l, blk.clone(), 64);
+        let accepted = matches!(out, StepOutcome::Result("added_lc"));
+        if let StepOutcome::Panicked(site, msg) = &out {
+            v.push((format!("C08|late_joiner|panic|site={site}"), format!("add_block of the node that joined mid-chain panicked at {site}: {msg}")));
+        } else if accepted != expect_accept {
+            let key = if accepted { if any_invalid { "C08|late_joiner|invalid_path_accepted" } else { "C08|late_joiner|insufficient_work_accepted" } } else { "C08|late_joiner|sufficient_work_rejected" };
+            v.push((
+                key.into(),
+                format!("a node that joined mid-chain (never saw block 1): work {} needed {} (dt {} ms), invalid path present: {} => expected {} but block was {}", work, needed, dt, any_invalid, if expect_accept { "accepted" } else { "rejected" }, out.name()),
+            ));
+        }
+    }
     let (out, _) = guarded_add(&mut node, blk, 64);
     let accepted = matches!(out, StepOutcome::Result("added_lc"));
     if let StepOutcome::Panicked(site, msg) = &out {
@@ -306,8 +336,9 @@ pub fn arb_gate_case() -> impl Strategy<Value = GateCase> {
             1..5,
         ),
         prop_oneof![3 => Just(-1i32), 3 => Just(0i32), 1 => 1i32..50],
+        prop_oneof![1 => Just(0u8), 1 => 1u8..8],
     )
-        .prop_map(|(mut prefix, creator, txs, dt_offset)| {
+        .prop_map(|(mut prefix, creator, txs, dt_offset, late_from)| {
             prefix.ncfg.loading_completed = true;
             prefix.ncfg.gp = 100;
             prefix.ncfg.heartbeat = 5000;
@@ -325,6 +356,7 @@ pub fn arb_gate_case() -> impl Strategy<Value = GateCase> {
                 creator,
                 txs,
                 dt_offset,
+                late_from,
             }
         })
 }
@@ -528,7 +560,7 @@ pub fn arb_payout_case() -> impl Strategy<Value = PayoutCase> {
 // ---------------------------------------------------------------------------
 
 pub fn run(ctx: &mut Ctx) {
-    ctx.rule = "(a) work function over the full domain (burn fee: any u64 incl. powers of two; timestamps to 2e12 and any u64; heartbeat 1..1e5): needed(t2) <= needed(t1) for t0 < t1 <= t2, and needed == 0 once t - t0 >= 2*heartbeat. (b) gate: blocks built with the repository's Block::create (bypassing the producer's own gate) from 1..4 fee-paying transactions with valid paths of 1..4 hops, no path, paths not ending at the creator, a bad hop signature or a gap, at the last millisecond before / the first millisecond at which / after the oracle work (fees halved per extra hop, zero unless the path ends at the creator; recomputed by the harness) meets the requirement; accepted <=> all paths valid and work >= needed. (c) payouts: in every block accepted on the longest chain of generated honest forked histories the fee transaction pays only the golden-ticket solver and keys on routing paths (or senders of path-less transactions) of the blocks being paid, at most what those blocks collected (u128), and the ticket solves the parent. non-trivial: (a) non-zero burn fee inside the two-heartbeat window, (b)/(c) >= 1 transaction with >= 2 hops and non-zero fee".into();
+    ctx.rule = "(a) work function over the full domain (burn fee: any u64 incl. powers of two; timestamps to 2e12 and any u64; heartbeat 1..1e5): needed(t2) <= needed(t1) for t0 < t1 <= t2, and needed == 0 once t - t0 >= 2*heartbeat. (b) gate: blocks built with the repository's Block::create (bypassing the producer's own gate) from 1..4 fee-paying transactions with valid paths of 1..4 hops, no path, paths not ending at the creator, a bad hop signature or a gap, at the last millisecond before / the first millisecond at which / after the oracle work (fees halved per extra hop, zero unless the path ends at the creator; recomputed by the harness) meets the requirement; accepted <=> all paths valid and work >= needed; in half of the cases the candidate also goes to a second node that joined mid-chain (fed the chain from a later block on, never saw block 1, so it validates without its utxoset) and has to reach the same verdict. (c) payouts: in every block accepted on the longest chain of generated honest forked histories the fee transaction pays only the golden-ticket solver and keys on routing paths (or senders of path-less transactions) of the blocks being paid, at most what those blocks collected (u128), and the ticket solves the parent. non-trivial: (a) non-zero burn fee inside the two-heartbeat window, (b)/(c) >= 1 transaction with >= 2 hops and non-zero fee".into();
     check_work_function(ctx);
     let cases = ctx.tier.pick(500u32, 15_000);
     pbt_run(ctx, "gate", cases, arb_gate_case(), |c, case, counting| {
@@ -536,6 +568,9 @@ pub fn run(ctx: &mut Ctx) {
         if counting {
             c.eval();
             c.class(&format!("gate_{class}"));
+            if case.late_from > 0 {
+                c.class("gate_also_delivered_to_mid_chain_joiner");
+            }
             if multi {
                 c.nontrivial(&("gate", digest(case)));
             }
